@@ -256,6 +256,11 @@ REBUILD_SHAPES = [
     ("three-four", (3, 4), [(72, (60,)), (72, (62,)), (72, (64,)), (216, (60, 67))]),
     ("dotted and triplets", (4, 4), [(108, (60,)), (36, (62,)), (48, (64,)), (48, (65,)), (48, (67,))]),
     ("eighths", (2, 4), [(36, (70,)), (36, (71,)), (36, ()), (36, (72,)), (144, (40, 47))]),
+    # bars given explicitly (a list per bar) that hold more than their meter: what the reader itself returns for a rest
+    # longer than a bar, and what Bar.set_meter leaves behind -- the file then has one delta longer than a bar
+    ("rest longer than a bar at the start", (4, 4), [[(72, ()), (288, ())], [(72, (60,))]]),
+    ("rest longer than a bar in the middle", (1, 4), [[(72, (60,)), (216, ())], [(288, ())], [(72, (64,))]]),
+    ("note longer than its bar", (2, 4), [[(288, (60,))], [(72, (62,)), (72, (64,))]]),
 ]
 
 
@@ -296,8 +301,20 @@ def rule_rebuild(ctx, rci):
         bar_ticks = 288 * meter[0] // meter[1]
         events = [[0, ev("set_tempo_event", [120])]]
         pending, at = 0, 0
-        for ticks, ps in entries:
-            if at % bar_ticks == 0:
+        if entries and isinstance(entries[0], list):
+            starts, flat = set(), []
+            for bar_entries in entries:
+                starts.add(len(flat))
+                flat += bar_entries
+            entries = flat
+        else:
+            starts, t_ = set(), 0
+            for i, (ticks, ps) in enumerate(entries):
+                if t_ % bar_ticks == 0:
+                    starts.add(i)
+                t_ += ticks
+        for i, (ticks, ps) in enumerate(entries):
+            if i in starts:
                 events.append([pending, ev("time_signature_event", [meter])])
                 events.append([0, ev("key_signature_event", ["C"])])
                 pending = 0
